@@ -13,6 +13,8 @@
 //	-prop c05   acceptance scripts (random bytes, single-field mutants, foreign sources, origin
 //	            echo per request mode, NTS, SCION packet authenticator with a key available)
 //	-prop c13   the SCION client with DRKey authentication enabled only (client clause of C13)
+//	-prop c11   the NTS clients' cookie pool along histories of exchanges with unauthenticated
+//	            datagrams in front of / instead of the genuine reply (client clauses of C11; driver drv_c11)
 package main
 
 import (
@@ -26,7 +28,7 @@ import (
 	"verifharness/lib"
 )
 
-var prop = flag.String("prop", "c03", "c03|c05|c13: which generator streams to run")
+var prop = flag.String("prop", "c03", "c03|c05|c13|c11: which generator streams to run")
 
 // probeMalformedAuth adds responses whose authenticator option data is not 28 bytes long to the
 // SPAO stream (and empty paths of an unregistered type). On by default since the repair dd91497;
@@ -66,6 +68,8 @@ func exec(t []string) string {
 		return "ok " + lib.Bool(ntp.ValidateResponseMetadata(&p) == nil)
 	case len(t[0]) > 4 && t[0][:4] == "cli.":
 		return "live-only"
+	case t[0] == "cl.exch":
+		return execExch(t) // one live exchange, re-executable (gen_pool.go)
 	}
 	return "bad-op"
 }
@@ -130,6 +134,9 @@ func gen(c *lib.Ctx) {
 		genSPAO(c, "c05spao")
 	case "c13":
 		genSPAO(c, "c13spao")
+	case "c11":
+		genPool(c, "c11pool-ip", false)
+		genPool(c, "c11pool-scion", true)
 	default:
 		panic("unknown -prop")
 	}
